@@ -49,7 +49,7 @@ for _p, _txt, _orc in [
             '(several spellings), load/dump/clear/toggle/swap, restarts on the same location, clock steps, calls of a second '
             'instance on the same archive and of a sibling function sharing the code object (other defaults), restarts that re-open '
             'the archive directory with other compatible storage options, decorator objects copied or pickled before use, two '
-            'live default-repr objects as arguments, calls that pass '
+            'live default-repr objects as arguments, another decorator object of the same class built first, calls that pass '
             'one list object again after mutating it in place, is '
             'compared with a direct evaluation of the undecorated function; no exception other than the function\'s own '
             'may reach the caller', 'a direct evaluation of the undecorated function at every call'),
@@ -72,7 +72,8 @@ for _p, _txt, _orc in [
     ('C07', 'every key leaving memory during a call must be in the attached archive with the same value, no archived '
             'entry may change or vanish, and in strict runs every computed result stays retrievable; in "unenc" runs some '
             'results are refused by every encoding: the call or dump() may fail with the encoder\'s error but must lose '
-            'nothing; steps where the shared store is emptied through another handle or by sync(clear=True)', 'the observed memory/archive contents before and after every call'),
+            'nothing; steps where the shared store is emptied through another handle or by sync(clear=True), one entry is invalidated by '
+            'hand through f.__cache__(), or the cache object is checkpointed (dump + clear)', 'the observed memory/archive contents before and after every call'),
     ('C15', 'info() must equal (hits, misses, loads) classified from the evaluation log and residency before each call, '
             'plus configured maxsize and current size, after every step of histories with clear/load/dump/toggle/'
             'restart/clone, raising calls (Exception, BaseException, OSError/KeyError/TypeError flavours) and safe fallbacks, a generator function; calls made through a second function built from the SAME '
@@ -100,7 +101,8 @@ CHECKS['C13'] = ('crashsim', 'fault_enumeration', '4',
     'raw write; for the sqlite file archive additionally at EVERY write/sync/truncate/unlink system call the sqlite C '
     'library issues (native LD_PRELOAD shim, incl. half-written buffers); a tenth of the single-file scenarios with the '
     'archive file writable but its directory not (writer demoted to an unprivileged uid); in half of the scenarios the reading '
-    'process re-seeds the global random like the killed writer (same temporary names) - and a fresh process must read the survivor without error and see old-or-new for touched keys, untouched '
+    'process re-seeds the global random like the killed writer (same temporary names); a tenth of the single-file scenarios with a '
+    'hard-linked archive file - and a fresh process must read the survivor without error and see old-or-new for touched keys, untouched '
     'keys unchanged and no foreign key',
     'crash points are exhaustive per scenario, scenarios are sampled; process-kill semantics (no power loss/fsync model); '
     'crash points inside sqlite need a C compiler at check time (otherwise only Python-level points run, reported by a probe); '
@@ -118,7 +120,8 @@ CHECKS['C14'] = ('racesim', 'exploration', '4',
     'dictionary that existed, a fresh handle sees every acknowledged write; sqlite busy-waits run on virtual time and a '
     'busy timeout is accepted only while another client has an operation in flight (finished clients stay alive, idle); '
     'clients read clocks that are 0 / 90 / +-3600 s apart; in 15% of dir/sqlite runs one writing client is stalled right '
-    'before its commit / final rename until the others have finished or given up; 12% of archives live behind a symlink',
+    'before its commit / final rename until the others have finished or given up; 12% of archives live behind a symlink; in 10% of '
+    'the runs every client reports os.getpid() == 1 (PID namespaces)',
     'one sampled schedule per scenario (not all interleavings); interleaving granularity is the intercepted Python-level '
     'call (C-level sequences inside sqlite / importlib are atomic); file archive limited to one writer plus readers/openers',
     'deterministic simulation with fault injection: seeded scheduler over real client processes parked at every intercepted '
@@ -140,7 +143,8 @@ CHECKS['C17'] = ('sessions', 'exploration', '4',
     'object, other defaults) memoized first; key() of every call must be byte-identical in all sessions and later '
     'sessions must be served by loads without any evaluation, for raw/string/pickle/json/md5/sha1 keymaps x flat x typed x '
     'sentinel over every persistent backend; 8% of the chains use the raw keymap with a nine-parameter function (flat keys '
-    'of more than 16 items) on pickled file/dir archives; a function whose parameter names differ by case only',
+    'of more than 16 items) on pickled file/dir archives; a function whose parameter names differ by case only; chains with tol / deep '
+    'rounding, signed zeros and a rounding function that ran first in only some sessions',
     "samples chains; arguments restricted to values whose repr/pickle is process independent; ~0.3 s per exec'd session "
     'bounds the number of chains',
     "deterministic simulation with fault injection: seeded chains of exec'd interpreter sessions (hash seed, process state "
